@@ -65,10 +65,14 @@ class Session:
         finally:
             EV.STATE['quiet'] -= 1
 
-    def add(self, ro, msg):
-        """ro + msg on the real library.  Returns (ro', exception|None, warnings)."""
+    def add(self, ro, msg, error_on=None):
+        """ro + msg on the real library.  Returns (ro', exception|None, warnings).
+        error_on: a warning category turned into an error for this call (the
+        interpreter's -W error configuration, restricted to that category)."""
         with warnings.catch_warnings(record=True) as wl:
             warnings.simplefilter('always')
+            if error_on is not None:
+                warnings.simplefilter('error', error_on)
             try:
                 out = ro + msg
                 err = None
@@ -148,6 +152,20 @@ class Session:
                                 {'has_cr': cr,
                                  'only_cr_normalised': cr and rt.get('rt_str') ==
                                  rt['str'].replace('\r\n', '\n').replace('\r', '\n')}))
+        if 'ids_exc' not in rt and 'live_ids' in rt:
+            try:
+                doc = Abs(ev['post_xml'])
+                from .canon import item_ids as _iids
+                doc_ids = [(i, _iids(st)) for i, st in zip(doc.story_ids, doc.stories)]
+                live = [(a, list(b)) for a, b in rt['live_ids']]
+                if live != doc_ids:
+                    out.append(spec.Dev('C14', 'live-stories-differ-from-serialised-document',
+                                        {'live': live[:6], 'document': doc_ids[:6]}))
+                if 'rt_ids' in rt and [(a, list(b)) for a, b in rt['rt_ids']] != live:
+                    out.append(spec.Dev('C14', 'reread-stories-differ-from-live-object',
+                                        {'live': live[:6], 'reread': rt['rt_ids'][:6]}))
+            except Exception:
+                pass
         if 'completed' in rt and 'rt_completed' in rt and rt['completed'] != rt['rt_completed']:
             out.append(spec.Dev('C07', 'completed-flag-lost-on-roundtrip', {}))
             out.append(spec.Dev('C14', 'completed-flag-lost-on-roundtrip', {}))
@@ -197,16 +215,33 @@ class Session:
                 out.append((ev, self.judge_event(ev, delivered, ctx)))
         return out
 
-    def step(self, ro, msg_text, ctx=None):
+    def step(self, ro, msg_text, ctx=None, error_on=None):
         """Parse msg_text, add it to ro, judge.  Returns (ro, err, verdict, event)."""
         try:
             msg = self.load(msg_text)
         except Exception as e:
             self.hist['unloadable-message:' + type(e).__name__] += 1
             return ro, e, None, None
-        ro2, err, wl = self.add(ro, msg)
+        ro2, err, wl = self.add(ro, msg, error_on)
         delivered = [type(w.message).__name__ for w in wl]
         judged = self.drain_and_judge(delivered, ctx)
+        ev, v = judged[-1] if judged else (None, None)
+        return ro2, err, v, ev
+
+    def step_direct(self, ro, msg_text, ctx=None):
+        """Like step(), but through msg.merge(ro) called directly (public API)."""
+        from . import attach
+        try:
+            msg = self.load(msg_text)
+        except Exception as e:
+            self.hist['unloadable-message:' + type(e).__name__] += 1
+            return ro, e, None, None
+        with warnings.catch_warnings(record=True) as wl:
+            warnings.simplefilter('always')
+            ro2, err = attach.direct_merge(ro, msg)
+        delivered = [type(w.message).__name__ for w in wl]
+        judged = self.drain_and_judge(delivered, ctx)
+        self.hist['direct_merges'] += 1
         ev, v = judged[-1] if judged else (None, None)
         return ro2, err, v, ev
 
